@@ -100,3 +100,8 @@ claim("C09", "DESIGN.md 5 C09",
       "For 10 receiver kinds (H264Packet Annex-B/AVC, H265Packet +/-DONL, VP8Packet, VP9Packet, AV1Depacketizer, AV1Packet fresh/reused + frame.AV1, OpusPacket): nil, empty and EVERY byte string of up to 2 bytes (thorough: 3 bytes, all 16.8 M; quick: 3-byte strings over 40 symbols) into a fresh and a used receiver; and EVERY sequence of up to 3 (thorough 4) payloads from a ~40-payload corpus per codec (reference encoders: every descriptor option, fragment start/middle/end, aggregation, PACI, truncated and malformed payloads) fed to one receiver with IsPartitionHead/IsPartitionTail interleaved. No call may panic; per-packet formats must return the same bytes/error and the same exported fields and accessor values as a fresh receiver at every step; H264Packet and AV1Depacketizer run against a twin while their earlier input buffers are overwritten after every call and must give identical outputs.",
       "Corpora are fixed lists generated from the reference encoders; nil vs empty slices are not distinguished.",
       "bounded exhaustive enumeration of payload histories with fresh-twin and overwrite-twin differential oracles (explicit choice-tree DFS on the real code)")
+
+claim("C19", "DESIGN.md 5 C19",
+      "Encoder: for stream counts 1-4 and every RID, EVERY subset of the stream x spatial slots (16 + 256 + 4096 + 65536) x 4 temporal-layer patterns x bitrate patterns across all LEB128 size classes x resolution on/off is marshalled by the real VLA.Marshal, compared byte for byte with a reference encoder written from the video-layers-allocation00 text, and unmarshalled into a fresh and a used receiver (all bytes consumed, equal value). Invalid stream counts, RIDs, spatial ids, layer stream ids, duplicates and 0/5 temporal layers must be rejected. Decoder: nil, empty, all 1-2 byte strings, 3-byte strings (all in thorough), and every truncation and single-byte mutation of valid encodings into fresh and used receivers: no panic, consumed <= given, used = fresh.",
+      "The empty allocation is only round-tripped. Pattern alphabets in the evidence assumptions.",
+      "bounded exhaustive enumeration (complete over slot subsets) against an independent specification encoder (explicit choice-tree DFS on the real code)")
